@@ -164,7 +164,7 @@ def layered_graph(draw, Lmax=6, wmax=4, cstyle=None, id_scheme=None, charged=Non
     elif id_scheme == 'shuffled':
         ids = list(draw(st.permutations(list(range(total)))))
     elif id_scheme == 'negative':
-        ids = [-(k + 1) * 2 for k in range(total)]
+        ids = [-(k + 1) for k in range(total)]      # contains -1 and -2 (equal CPython hashes)
     else:
         off = draw(st.integers(1, 50))
         ids = [off + 3 * k for k in range(total)]
